@@ -30,6 +30,9 @@ AsyncOk(m) == \/ \E n \in rotn..Len(seq) : \A k \in Keys : m[k + 1] = MapAfter(n
               \/ \E g \in Unapplied : \A k \in Keys : m[k + 1] = IF pend[g].k = k THEN pend[g].v ELSE MapAfter(Len(seq), k)
 Verdict ==
   IF ~Ev.ok THEN "open-failed"
+  \* the session that recovered the image went on: one more Put, a regular flush, all keys read, clean restart, all keys read - and lost
+  \* or changed something the recovery itself had shown
+  ELSE IF "cont" \in DOMAIN Ev /\ Ev.cont # "" THEN "work-after-recovery-changes-recovered-data"
   ELSE IF Ev.kind = "nested" THEN (IF Ev.m = Ev.ref THEN "ok" ELSE "differs-from-uninterrupted-recovery")
   ELSE IF mode = "sync" THEN (IF SyncOk(Ev.m) THEN "ok" ELSE "acknowledged-write-lost-or-stale")
   ELSE (IF AsyncOk(Ev.m) THEN "ok" ELSE "not-a-prefix-containing-last-rotation")
